@@ -180,6 +180,14 @@ func runC17(c *fw.Case) (o fw.Outcome) {
 				}
 				v6 = ip6.String()
 			}
+			if v4 != "" && v6 != "" && r.Intn(4) == 0 {
+				// dual stack whose IPv6 half is the IPv4-MAPPED form of the very same host, in the spellings net.IP prints and
+				// reads (the dotted one is what IPAddressToString returns for such an address): two arguments that may be
+				// equal as text are still two addresses, 160 bits on the wire
+				ip := net.ParseIP(v4).To4()
+				v6 = pick(r, v4, "::ffff:"+v4, fmt.Sprintf("::ffff:%02x%02x:%02x%02x", ip[0], ip[1], ip[2], ip[3]))
+				o.Count("dual_stack_with_mapped_form_of_the_same_host", 1)
+			}
 			if v4 != "" && v6 == "" && r.Intn(5) == 0 { // IPv4 written in an IPv4-mapped notation is still that IPv4 address
 				ip := net.ParseIP(v4).To4()
 				v4 = pick(r, "::ffff:"+v4, fmt.Sprintf("::ffff:%02x%02x:%02x%02x", ip[0], ip[1], ip[2], ip[3]))
